@@ -56,7 +56,7 @@ for s in $SRCS; do [ -f $V/$s ] && REAL_SRCS="$REAL_SRCS $s"; done
 make -s -j16 -f $V/Makefile.harness V=$V B=$B CXX=$CXX HFLAGS="$HFLAGS" DEFS="$DEFS" INC="$INC" SRCS="$REAL_SRCS" > $B/harness.log 2>&1 || { tail -40 $B/harness.log; echo "harness compile failed"; exit 2; }
 OBJS=""
 for s in $REAL_SRCS; do OBJS="$OBJS $B/obj/$(echo $s | tr / _).o"; done
-WRAPS="pthread_once pthread_create pthread_join pthread_detach pthread_mutex_init pthread_mutex_destroy pthread_mutex_lock pthread_mutex_trylock pthread_mutex_unlock pthread_cond_init pthread_cond_destroy pthread_cond_wait pthread_cond_timedwait pthread_cond_signal pthread_cond_broadcast pthread_attr_setaffinity_np pthread_attr_init pthread_attr_setstacksize pthread_attr_getstacksize backtrace pthread_setname_np clock_gettime nanosleep fopen fclose fwrite fileno fstat posix_memalign free aws_priority_queue_push_ref"
+WRAPS="pthread_once pthread_create pthread_join pthread_detach pthread_mutex_init pthread_mutex_destroy pthread_mutex_lock pthread_mutex_trylock pthread_mutex_unlock pthread_cond_init pthread_cond_destroy pthread_cond_wait pthread_cond_timedwait pthread_cond_signal pthread_cond_broadcast pthread_attr_setaffinity_np pthread_attr_init pthread_attr_setstacksize pthread_attr_getstacksize backtrace pthread_setname_np clock_gettime nanosleep fopen fclose fwrite fread fileno fstat posix_memalign free aws_priority_queue_push_ref"
 W=""
 for w in $WRAPS; do W="$W -Wl,--wrap=$w"; done
 $CXX $LDFLAGS -o $B/dsim.new $OBJS $B/lib/libaws-c-common.a $W -lpthread -ldl -lm
